@@ -102,7 +102,8 @@ def read_meta(d):
 
 _RE_STATES = re.compile(r"(\d+) states generated, (\d+) distinct states found")
 _RE_INV = re.compile(r"Invariant (\S+) is violated")
-_RE_FAIL = re.compile(r'^<<"FAIL", (\d+), "([^"]*)"(?:, (.*))?>>\s*$', re.M)
+# n.b. TLC pretty-prints a tuple that does not fit on one line over several lines (<< "FAIL",\n   123,\n   "clause" >>)
+_RE_FAIL = re.compile(r'^<<\s*"FAIL",\s*(\d+),\s*"([^"]*)"\s*(?:,\s*([^\n]*?))?\s*>>\s*$', re.M | re.S)
 
 
 def stage_specs(d, modules=None):
